@@ -28,7 +28,8 @@ ASSUMPTIONS = [
 PROFILE = scenario.profile(maxD=3, extra_budget=(10, 60), cons_x0=("margin",), p_cons=0.45, max_iter_choices=(None,),
                            tol_mesh_choices=(None,), c_classes=("inside", "on_bound", "outside", "hardbox"),
                            # rarely used but supported: a user-supplied annealing schedule for the LCB
-                           extra_opts=(("search_acq_fcn", ({"__callable__": "lcb_schedule", "k": 0.5}, {"__callable__": "lcb_schedule", "k": 2.0}), 0.2),
+                           extra_opts=(("search_acq_fcn", ({"__callable__": "lcb_schedule", "k": 0.5}, {"__callable__": "lcb_schedule", "k": 2.0},
+                                                          {"__callable__": "lcb_const", "v": 1.5}), 0.25),
                                        # the search mesh follows the poll mesh instead of staying at its initial size
                                        ("search_size_locked", (False,), 0.25)))
 N = {"quick": 160, "thorough": 3000}
@@ -77,7 +78,9 @@ def run_oracle(scn, tr):
             if a["xi"] is None or not len(a["xi"]):
                 continue
             tt = a["func_count"] + 1
-            if isinstance(sched, dict):
+            if isinstance(sched, dict) and sched["__callable__"] == "lcb_const":
+                sb = float(sched["v"])
+            elif isinstance(sched, dict):
                 sb = sched["k"] * np.sqrt(0.2 * 2 * np.log(a["D"] * tt**2 * np.pi**2 / 0.6))
             else:
                 sb = np.sqrt(0.2 * 2 * np.log(a["D"] * tt**2 * np.pi**2 / 0.6))
@@ -87,7 +90,7 @@ def run_oracle(scn, tr):
             if not np.all(okz):
                 j = int(np.argmax(~okz))
                 v.append(viol("a:acquisition-value-not-lcb", f"{e['cls']}: ranked value {zz[j]!r} but mean - {sb:.6g}*sd = {ref[j]!r} "
-                              f"({'user schedule k=%s' % sched['k'] if isinstance(sched, dict) else 'default schedule'}, t={tt}, D={a['D']})",
+                              f"({'user setting %s' % sched if isinstance(sched, dict) else 'default schedule'}, t={tt}, D={a['D']})",
                               site="custom-schedule" if isinstance(sched, dict) else "default"))
                 break
         zmin = np.nanmin(allz) if np.any(~np.isnan(allz)) else np.nan
